@@ -366,7 +366,7 @@ def gen_jobs(tier, rng):
     # concurrent insert phases under the cooperative scheduler, 1..8 threads
     def cprog(nt, per, pool):
         return ";".join(",".join("%d:%d" % (rng.choice(pool), rng.choice(pool)) for _ in range(rng.randint(1, per))) for _ in range(nt))
-    for k in range(120 if q else 2500):
+    for k in range(120 if q else 1800):
         nt = rng.choice([1, 2, 2, 3, 3, 4, 8])
         pool = rng.sample(EXTREME, rng.choice([3, 4, 5, 6]))
         setup = ",".join("i:1:%d:%d" % (rng.choice(pool), rng.choice(pool)) for _ in range(rng.randint(0, 2))) or "-"
@@ -381,7 +381,7 @@ def gen_jobs(tier, rng):
                 fam["directed"].append("%s D%d:2:%d:3" % (prog, k1, k2))
     # systematic: every schedule with <= 2 deviations from run-to-completion (breadth first, capped)
     for prog in ("C i:1:0:2 0:3,0:0;0:3;3:3", "C - 0:1;1:2;2:0", "C i:1:0:1 0:2;1:2", "C - %d:%d;%d:%d" % (IMIN, IMAX, IMAX, IMIN)):
-        fam["systematic"].append("%s P2:%d" % (prog, 60 if q else 2500))
+        fam["systematic"].append("%s P2:%d" % (prog, 60 if q else 1500))
     # real-thread stress, 2..8 threads
     for k in range(40 if q else 600):
         nt = rng.choice([2, 4, 8, 8])
